@@ -5,6 +5,7 @@ use hcore::runner::*;
 use serde_json::json;
 use vcore::dv::DV;
 use vcore::enc::{Cur, EncErr};
+use std::collections::BTreeSet;
 use vcore::rschema::*;
 
 pub fn c12_case(b: &Batch, ri: usize, vals: &[DV], _k: usize, st: &mut Stats, counting: bool) -> Result<(), Fail> {
@@ -21,11 +22,20 @@ pub fn c12_case(b: &Batch, ri: usize, vals: &[DV], _k: usize, st: &mut Stats, co
             }
         };
         if !recursive_ty && schema.contains_recursion() {
-            return Err(Fail {
-                check: "schema_spurious_recursion".into(),
-                detail: "schema of a non-recursive type contains a Recursion marker".into(),
-                extra: json!({"version": v, "schema": format!("{:?}", schema).chars().take(600).collect::<String>()}),
-            });
+            // recorded on the side (known shape: HashMap/IndexMap values, D13d); the bytes cannot be
+            // read through such a schema, so this root/version is not explored further
+            side_fail(
+                Fail {
+                    check: "schema_spurious_recursion".into(),
+                    detail: "schema of a non-recursive type contains a Recursion marker".into(),
+                    extra: json!({"version": v, "schema": format!("{:?}", schema).chars().take(600).collect::<String>()}),
+                },
+                vals,
+            );
+            if counting {
+                *st.excluded.entry("schema_with_spurious_recursion_marker_not_read".into()).or_insert(0) += 1;
+            }
+            continue;
         }
         let mut frames = vec![];
         if recursive_ty {
@@ -48,34 +58,34 @@ pub fn c12_case(b: &Batch, ri: usize, vals: &[DV], _k: usize, st: &mut Stats, co
             if counting {
                 st.evaluations += 1;
             }
-            let mut rd = SchemaReader::new(frames.clone());
-            let mut c = Cur::new(&bytes);
-            let got = rd.read(&schema, &mut c);
             let ex = json!({"version": v, "bytes": hex(&bytes), "value": x.render()});
-            let shape = match got {
-                Ok(s) => s,
-                Err(e) => {
-                    let mut ex = ex;
-                    ex["at"] = json!(rd.err_at.clone().unwrap_or_default());
-                    return Err(Fail { check: "schema_reader_error".into(), detail: format!("schema-driven reader fails on the type's own bytes: {}", e), extra: ex });
+            let model = u.wire_shape(ty, v, &x);
+            // 1. reader with the substitutions for the known misdescriptions switched on
+            let all: BTreeSet<&'static str> = KNOWN_PATCHES.iter().copied().collect();
+            let (shape, hits) = read_with(&schema, &frames, &bytes, &all, model.as_ref(), &ex)?;
+            // 2. every substitution that was used is switched off on its own: a failure then
+            //    reproduces the known finding for exactly that node (reported without ending
+            //    the campaign for this root type)
+            for h in hits {
+                let mut p = all.clone();
+                p.remove(h);
+                if let Err(f) = read_with(&schema, &frames, &bytes, &p, model.as_ref(), &ex) {
+                    let mut ex2 = ex.clone();
+                    ex2["at"] = json!(h);
+                    ex2["failure_without_substitution"] = json!(format!("[{}] {}", f.check, f.detail).chars().take(400).collect::<String>());
+                    side_fail(
+                        Fail {
+                            check: "schema_misdescribes_bytes".into(),
+                            detail: format!("the schema node {} does not describe the bytes written for it (reader succeeds only when the true layout is substituted)", h),
+                            extra: ex2,
+                        },
+                        vals,
+                    );
                 }
-            };
-            if c.remaining() != 0 {
-                return Err(Fail {
-                    check: "schema_reader_trailing".into(),
-                    detail: format!("schema-driven reader consumed {} of {} bytes", c.pos, bytes.len()),
-                    extra: ex,
-                });
             }
-            match u.wire_shape(ty, v, &x) {
+            match model {
                 Some(model) => {
-                    if !Shape::matches(&model, &shape) {
-                        return Err(Fail {
-                            check: "schema_reader_shape".into(),
-                            detail: format!("structure read through the schema differs from the value: read {:?} expected {:?}", shape, model).chars().take(900).collect(),
-                            extra: ex,
-                        });
-                    }
+                    let _ = &shape;
                     if counting {
                         st.class("shape_compared");
                         if model.has_seq_or_variant() {
@@ -95,4 +105,44 @@ pub fn c12_case(b: &Batch, ri: usize, vals: &[DV], _k: usize, st: &mut Stats, co
         }
     }
     Ok(())
+}
+
+/// One run of the schema-driven reader over `bytes`: error, incomplete consumption and (where
+/// the model knows the structure) a structure different from the value are failures.
+fn read_with(
+    schema: &RSchema,
+    frames: &[*const RSchema],
+    bytes: &[u8],
+    patches: &BTreeSet<&'static str>,
+    model: Option<&Shape>,
+    ex: &serde_json::Value,
+) -> Result<(Shape, BTreeSet<&'static str>), Fail> {
+    let mut rd = SchemaReader::new(frames.to_vec());
+    rd.patches = patches.clone();
+    let mut c = Cur::new(bytes);
+    let shape = match rd.read(schema, &mut c) {
+        Ok(s) => s,
+        Err(e) => {
+            let mut ex = ex.clone();
+            ex["at"] = json!(rd.err_at.clone().unwrap_or_default());
+            return Err(Fail { check: "schema_reader_error".into(), detail: format!("schema-driven reader fails on the type's own bytes: {}", e), extra: ex });
+        }
+    };
+    if c.remaining() != 0 {
+        return Err(Fail {
+            check: "schema_reader_trailing".into(),
+            detail: format!("schema-driven reader consumed {} of {} bytes", c.pos, bytes.len()),
+            extra: ex.clone(),
+        });
+    }
+    if let Some(model) = model {
+        if !Shape::matches(model, &shape) {
+            return Err(Fail {
+                check: "schema_reader_shape".into(),
+                detail: format!("structure read through the schema differs from the value: {}", Shape::first_diff(model, &shape)),
+                extra: ex.clone(),
+            });
+        }
+    }
+    Ok((shape, rd.patch_hits))
 }
